@@ -44,10 +44,14 @@ def kind_sx(c):
     n = len(c["content"])
     if k[0] in ("noreg", "bufshort"):
         return [2]
+    # optional third element: the position is that many bytes BEYOND the end (legal for BytesIO and files;
+    # the content of such a case is empty: nothing can be read there)
+    beyond = k[2] if len(k) > 2 else 0
+    assert not (beyond and n), "a stream positioned beyond its end has no content to deliver"
     if k[0] == "bytesio":
-        return [0, n + k[1], k[1]]
+        return [0, n + k[1], k[1] + beyond]
     if k[0] == "file":
-        return [1, n + k[1], k[1], 1]
+        return [1, n + k[1], k[1] + beyond, 1]
     if k[0] == "pipe":
         return [1, 0, 0, 0]
     raise ValueError(k)
@@ -124,14 +128,14 @@ def open_stream(c, log, tmpfiles):
     elif k[0] == "bytesio":
         f = _LoggedBytesIO(b"P" * k[1] + c["content"])
         f._log = log
-        f.seek(k[1])
+        f.seek(k[1] + (k[2] if len(k) > 2 else 0))
     elif k[0] == "file":
         fd, path = tempfile.mkstemp(prefix="vf_tsize_")
         os.write(fd, b"P" * k[1] + c["content"])
         os.close(fd)
         tmpfiles.append(path)
         f = open(path, "rb")
-        f.seek(k[1])
+        f.seek(k[1] + (k[2] if len(k) > 2 else 0))
     elif k[0] == "pipe":
         r, w = os.pipe()
         os.write(w, c["content"])      # callers keep pipe content below the pipe buffer size
